@@ -143,8 +143,10 @@ def check_mean_any_m(ctx: Ctx):
         cands = differentiable_nonleaves(P)
         tensors = rng.sample(cands, min(len(cands), rng.choice([1, 2, 3])))
         m = sum(numel(P.nodes[t].shape) for t in tensors)
-        if m not in (1, 2, 4, 8, 16, 32) and m <= 24 and not P.casts:
-            break       # (with a cast on the way the twin's cotangent 1/m would itself pass through single precision)
+        if m not in (1, 2, 4, 8, 16, 32) and m <= 24 and not P.casts and not P.big:
+            break       # (with a cast on the way the twin's cotangent 1/m would itself pass through single precision;
+            #            with the 2^25+1 factor, paths of size 3e7 cancel INSIDE a Jacobian entry: the allowance below, built from
+            #            the entries, would not cover the rounding of those paths)
     else:
         return
     good = [i for i in P.leaves() if P.nodes[i].rg]
